@@ -330,7 +330,9 @@ func (eng *RedisEmu) SetHook(hook DispatchHook) {
 
 	if eng.dss != nil {
 		// the dispatcher of a running emulator reads the hook under this lock
+		simBeforeLock(&eng.dss.mu, "dss.mu")
 		eng.dss.mu.Lock()
+		defer simAfterUnlock(&eng.dss.mu, "dss.mu")
 		defer eng.dss.mu.Unlock()
 	}
 	eng.hook = hook
